@@ -848,7 +848,7 @@ def c02 (cfg : Cfg) (tr : List TE) : List Viol :=
     the client repeats an earlier datagram of the same exchange with only the DUP flag changed
     (same message ID and payload), a given datagram goes out at most 1 + RetryCount times, and a
     PUBACK / PUBREC / PUBCOMP of the client is relayed to the broker at most once per exchange. -/
-def c16 (cfg : Cfg) (tr : List TE) : List Viol :=
+def c16Retransmissions (cfg : Cfg) (tr : List TE) : List Viol :=
   let snOf := fun (l : List (Nat × Out)) => l.filterMap fun (x : Nat × Out) => match x.2 with
     | Out.sn b => (match decode b with
       | .ok (_, .publish ..) | .ok (_, .register ..) | .ok (_, .pubrel ..) => some (x.1, b)
@@ -873,6 +873,67 @@ def c16 (cfg : Cfg) (tr : List TE) : List Viol :=
     let nd := (direct.filter fun b => clearDup b == k).length
     if nt > cfg.retryCount * (max nd 1) then
       [{ sig := "retransmitted-beyond-budget", detail := s!"timer-copies={nt} direct={nd}" : Viol }] else []
+
+/-- message ID of a gateway → client datagram that opens a step of a QoS 1/2 delivery and awaits an
+    answer of the client: REGISTER (REGACK), PUBLISH QoS 1/2 (PUBACK / PUBREC), PUBREL (PUBCOMP) -/
+def awaitsAnswer (b : Bytes) : Option UInt16 :=
+  match decode b with
+  | .ok (_, .register _ mid _) => some mid
+  | .ok (_, .publish _ q _ _ _ mid _) => if q == 1 || q == 2 then some mid else none
+  | .ok (_, .pubrel mid) => some mid
+  | _ => none
+
+/-- "survives datagram loss": a datagram of a QoS 1/2 delivery that the gateway sent to an ACTIVE
+    client on its own and that nothing has answered is sent again one RetryDelay later.  Judged only
+    where nothing else can have happened to the exchange: RetryCount ≥ 1; the client was active and no
+    state change is sampled before the deadline; the session (one poll interval of slack: its end is
+    reported that late) and the trace go on beyond the deadline, and the gateway has not hung up; no answer of the client with that message ID (REGACK / PUBACK / PUBREC / PUBCOMP), no
+    CONNECT / DISCONNECT / undecodable datagram, no broker packet with that message ID and no end of the
+    broker connection arrives before the deadline. -/
+def c16Unanswered (cfg : Cfg) (tr : List TE) : List Viol :=
+  if cfg.retryCount == 0 then [] else
+  let tEnd := tr.foldl (fun m e => max m (match e with | .inp t _ => t | .out t _ => t)) 0
+  let endT := (endedAtOf tr).getD (tEnd + 1000000)
+  let isState := fun (x : Nat × Out) => match x.2 with | Out.state _ => true | _ => false
+  let lastState := fun (st : CState) (l : List (Nat × Out)) => l.foldl (fun acc x => match x.2 with | Out.state s => s | _ => acc) st
+  let rec go (sts : List Step) (st : CState) (acc : List Viol) : List Viol :=
+    match sts with
+    | [] => acc
+    | s :: rest =>
+      let v := if st != CState.active || s.ev.isNone then [] else
+        s.outs.flatMap fun (x : Nat × Out) => match x.2 with
+          | Out.sn b =>
+            (match awaitsAnswer b with
+             | some mid =>
+               let w := x.1 + cfg.retryDelay + 5
+               -- the end of a session is reported up to one poll interval after its cause
+               if w ≥ tEnd || w + Gen.connTimeout ≥ endT then [] else
+               let laterOuts := (s.later ++ rest.flatMap fun r => r.outs ++ r.later).filter (·.1 ≤ w)
+               let stateChanged := (s.outs ++ laterOuts).any isState
+               let disturbed := (rest.filter (·.t ≤ w)).any fun r =>
+                 (match r.ev with
+                  | some (Gw.Event.sn _) =>
+                    (match r.snIn with
+                     | some (.regack _ m _) | some (.puback _ m _) | some (.pubrec m) | some (.pubcomp m) => m == mid
+                     | some (.connect ..) | some (.disconnect _) => true
+                     | some _ => false
+                     | none => true)
+                  | some (Gw.Event.mq (.publish _ _ _ m _ _)) | some (Gw.Event.mq (.pubrel m)) => m == mid
+                  | some (Gw.Event.mq _) => false
+                  | some Gw.Event.tick => false
+                  | some _ => true
+                  | none => false)
+               let copy := laterOuts.any fun y => match y.2 with
+                 | Out.sn b2 => clearDup b2 == clearDup b || b2 == encode (.disconnect 0)   -- (or the gateway has hung up)
+                 | _ => false
+               if stateChanged || disturbed || copy then []
+               else [{ sig := "unanswered-datagram-not-retransmitted", detail := s!"t={x.1} mid={mid}" : Viol }]
+             | none => [])
+          | _ => []
+      go rest (lastState st (s.outs ++ s.later)) (acc ++ v)
+  go (steps tr) CState.disconnected []
+
+def c16 (cfg : Cfg) (tr : List TE) : List Viol := c16Retransmissions cfg tr ++ c16Unanswered cfg tr
 
 end Bisquitt.Spec
 
